@@ -81,6 +81,8 @@ def _clause_at(clauses, ls, le):
 
 def _span_text(sp):
     """site text = the full source line(s) the span touches, whitespace-normalised"""
+    if (sp.get("label") or "").startswith("at the end of the function body"):
+        return "end of function body"
     return " ".join(" ".join(t["text"] for t in sp["text"]).split())
 
 
